@@ -136,6 +136,12 @@ class Walker:
                                 facts.pop(k)
                     out.append((e, efs))
                     track_path_consts(canon, e)
+                    if e.kind == 'stmt' and contains_yield(e.node):
+                        # other processes run now: only what is known about this process's own
+                        # task / machine survives
+                        keep = _own_facts(facts)
+                        facts.clear()
+                        facts.update(keep)
         finally:
             canon.penv = saved
         return ok, out, snap, facts
@@ -192,13 +198,17 @@ def loop_paths(func, frame, loop):
 _UNITS_CACHE = {}
 
 
+_OWN = [()]     # parameters of the process being analysed (its own task / machine)
+
+
 def _own_facts(facts):
-    """facts that can be loop invariants across the yields of a cluster process: statements about the
-    cluster's own containers (only cluster code changes them, and the analysis follows every such
-    change).  What a test said about anything else -- a process handle's .triggered, a task's status --
-    may have changed by the next time the loop head is reached."""
+    """facts that can be loop invariants across the yields of a cluster process: membership of the
+    process's OWN task / machine (its parameters) in the cluster's containers -- no other process moves
+    them.  What a test said about anything else (a process handle's .triggered, the shared ingest
+    flag, whether a pool is empty) may have changed by the next time the loop head is reached, because
+    other processes run at every yield."""
     return {k: v for k, v in facts.items() if isinstance(k, tuple) and len(k) == 2 and isinstance(k[1], str)
-            and k[1].startswith('Cluster._')}
+            and k[1].startswith('Cluster._') and k[0] != '<empty>' and k[0] in _OWN[0]}
 
 
 def units(repo, depth=2):
@@ -222,6 +232,7 @@ def units(repo, depth=2):
         else:
             plan.append((f, {}, False))
     for f, world, skip_entry_segment in plan:
+        _OWN[0] = tuple(f.params)
         wl = '[%s]' % ','.join('%s=%s' % kv for kv in world.items()) if world else ''
         fr = world_frame(f, world)
         back_facts = None
